@@ -219,6 +219,9 @@ class _Job:
             self.index += 1
             ok, val = self.results.popleft()
             if ok:
+                tid = getattr(val, 'task_id', None)
+                if tid is not None:
+                    CTX.rec.last_task_main = tid
                 return val
             raise val
         raise StopIteration
